@@ -106,9 +106,18 @@ def run_check(pid: str, tier: str, seed: int, replay: str | None = None) -> int:
         total.merge(core.run_sharded(modname, seed, tier))
         # failing-input search on an enlarged budget when a proof or the correspondence broke
         known_now = core.known_signatures(pid)
-        if (not proofs_ok or total.disagreements) and not [f for f in total.failures if f.get("signature", "") not in known_now]:
-            notes.append("escalated failing-input search (proof or correspondence broken)")
-            esc = core.run_sharded(modname, seed, tier, escalate=True)
+        from tools import pins
+        src_changed = pins.changed_for(pid) if tier == "quick" else []
+        if src_changed:
+            notes.append(f"anchored source files differ from their pins: {src_changed}")
+        if (not proofs_ok or total.disagreements or src_changed) and not [f for f in total.failures if f.get("signature", "") not in known_now]:
+            notes.append("escalated failing-input search (proof or correspondence broken)" if (not proofs_ok or total.disagreements)
+                         else "escalated failing-input search (the code the property is anchored in was edited)")
+            esc = core.run_sharded(modname, seed, tier, escalate=True,
+                                   budget=None if (not proofs_ok or total.disagreements) else min(prop.time_budget["thorough"], 420))
+            if src_changed:
+                total.disagreements += esc.disagreements
+                total.lines += esc.lines
             total.failures += esc.failures
             total.evaluations += esc.evaluations
             total.nontrivial |= esc.nontrivial
